@@ -37,7 +37,7 @@ def compile_programs(ck, d, thorough):
         rc, o, e = run3([xcmp, 'p.x', '-o', 'p.bin'], cwd=sd, timeout=60)
         b = os.path.join(sd, 'p.bin')
         if rc == 0 and os.path.exists(b):
-            out.append((name, b, b'5' if name == 'fib.x' else b'AB' if name == 'echo' else b''))
+            out.append((name, b, b'5' if name == 'fib.x' else b'A\xfe' if name == 'echo' else b''))
     return out
 
 
